@@ -284,4 +284,38 @@ def traceCalls (s : State) : List Op → List (List Owner)
   | [] => []
   | op :: ops => stepCalls s op :: traceCalls (step s op).1 ops
 
+/-! ### two more ways a call can fail to leave the registry as it was (frame clause of C06) -/
+
+/-- A built-in metric class constructed with `registry=r`.  `rejects` stands for the class's own argument checks (opaque:
+no states / overlapping label for Enum, unsorted buckets, reserved label names, bad multiprocess mode …); `c` is what the
+finished object describes.  With the extracted flag `ctorsRegisterLast` (T1: in `metrics.py` no built-in constructor can raise
+after `MetricWrapperBase.__init__` ran `registry.register(self)`) every check precedes the registration.  On a tree where a
+class validates AFTER its base constructor registered it, the model does what that code does: the call raises AND the
+half-built collector stays registered. -/
+def construct (s : State) (c : Collector) (rejects : Bool) : State × Option PyErr :=
+  if PromVerif.Generated.Registry.ctorsRegisterLast then
+    if rejects then (s, some .valueError) else register s c
+  else
+    let r := register s c
+    if rejects then (r.1, some .valueError) else r
+
+/-- who holds a dict that is (or was) the registry's target info -/
+inductive DictHolder
+  | callerArgument   -- the dict the caller passed to `set_target_info`
+  | gotten           -- what `get_target_info()` returned
+  | collectedSample  -- the labels of a collected `target_info` sample
+deriving DecidableEq, Repr
+
+/-- does the registry hold / hand out a private copy there?  (T1 flags read from `registry.py`) -/
+def dictIsPrivate : DictHolder → Bool
+  | .callerArgument => PromVerif.Generated.Registry.targetInfoStoredCopied
+  | .gotten => PromVerif.Generated.Registry.targetInfoHandedOutCopied
+  | .collectedSample => PromVerif.Generated.Registry.targetInfoHandedOutCopied
+
+/-- the registry after code OUTSIDE it mutated such a dict: unchanged when the dict is a private copy; `none` — the model has
+no answer — when the registry shares the object (then `_target_info` changes behind the name map's back: emptied, it leaves
+`target_info` reserved with nothing configured). -/
+def afterCallerDictMutation (s : State) (h : DictHolder) : Option State :=
+  if dictIsPrivate h then some s else none
+
 end PromVerif.Model.Registry
